@@ -38,6 +38,7 @@ import (
 	proxyv1alpha1 "github.com/kubewharf/kubegateway/pkg/apis/proxy/v1alpha1"
 	"github.com/kubewharf/kubegateway/pkg/apis/proxy/v1alpha1/validation"
 	gatewayclientset "github.com/kubewharf/kubegateway/pkg/client/kubernetes"
+	gatewayfake "github.com/kubewharf/kubegateway/pkg/client/kubernetes/fake"
 	proxylisters "github.com/kubewharf/kubegateway/pkg/client/listers/proxy/v1alpha1"
 	"github.com/kubewharf/kubegateway/pkg/clusters"
 	"github.com/kubewharf/kubegateway/pkg/clusters/features"
@@ -556,6 +557,86 @@ func limiterRun(o *proxyv1alpha1.UpstreamCluster, w ClusterW) (outcome, []string
 	return out, sizes, rl
 }
 
+// limiterTerms: the limiter server over two TERMS on one kind of store ("local": in memory, "k8s": conditions
+// persisted through the gateway API, here a fake clientset). Term 1: a replica starts leading the shard (real
+// startLeading: new store, Load, handler for every cluster of the shard), serves one report of the gateway and one
+// DoAcquire per global schema, stops leading (the k8s store flushes). Term 2: ANOTHER replica takes the shard over
+// (same API, new store) and must serve the same. Returns "" or what went wrong.
+func limiterTerms(o *proxyv1alpha1.UpstreamCluster, w ClusterW, kind string) string {
+	_, wantGlobal := configuredSizes(w)
+	client := gatewayfake.NewSimpleClientset()
+	info, out := createPiecewise(o, "remote")
+	defer clusters.VerifC16Stop(info)
+	if out.K != "ok" {
+		return "gateway (remote mode) could not create the cluster: " + out.String()
+	}
+	globals := []string{}
+	for _, s := range w.Schemas {
+		if s.GMax != nil || s.GTB != nil {
+			globals = append(globals, uh(s.Name))
+		}
+	}
+	for term := 1; term <= 2; term++ {
+		what := ""
+		res := guard(func() error {
+			rl := limiter.VerifC16NewReplica(fakeElector{}, fakeLimiterController{listerOf(o)}, client, kind)
+			limiter.VerifC16StartLeading(rl, 0)
+			defer limiter.VerifC16StopLeading(rl, 0)
+			store := limiter.VerifC16Store(rl, 0)
+			if store == nil {
+				return fmt.Errorf("the replica has no store for the shard after startLeading")
+			}
+			sizes := []string{}
+			for _, n := range globals {
+				fc, err := store.GetFlowControl(o.Name, n)
+				if err != nil {
+					return fmt.Errorf("GetFlowControl(%q): %v", n, err)
+				}
+				sizes = append(sizes, sizeOf(n, fc.String))
+			}
+			sort.Strings(sizes)
+			if !eqS(sizes, wantGlobal) {
+				return fmt.Errorf("global limiters %v, configured %v", sizes, wantGlobal)
+			}
+			ctx, cancel := context.WithCancel(context.Background())
+			defer cancel()
+			if _, err := remote.VerifC16ReconcileOnce(ctx, strings.ToLower(o.Name), fakeClientSets{}, clusters.VerifC16FlowControls(info),
+				func(c *proxyv1alpha1.RateLimitCondition) (*proxyv1alpha1.RateLimitCondition, error) {
+					return rl.UpdateRateLimitConditionStatus(o.Name, c.DeepCopy())
+				}); err != nil {
+				return fmt.Errorf("report (UpdateRateLimitConditionStatus): %v", err)
+			}
+			if len(globals) > 0 {
+				acq := &proxyv1alpha1.RateLimitAcquire{ObjectMeta: metav1.ObjectMeta{Name: o.Name},
+					Spec: proxyv1alpha1.RateLimitAcquireSpec{Instance: "gw-1", RequestID: int64(term)}}
+				for _, n := range globals {
+					acq.Spec.Requests = append(acq.Spec.Requests, proxyv1alpha1.RateLimitAcquireRequest{FlowControl: n, Tokens: 1})
+				}
+				ans, err := rl.DoAcquire(o.Name, acq)
+				if err != nil {
+					return fmt.Errorf("DoAcquire: %v", err)
+				}
+				for _, r := range ans.Status.Results {
+					if r.Error != "" {
+						return fmt.Errorf("DoAcquire(%q): %s", r.FlowControl, r.Error)
+					}
+				}
+				if len(ans.Status.Results) != len(globals) {
+					return fmt.Errorf("DoAcquire answered %d of %d requests", len(ans.Status.Results), len(globals))
+				}
+			}
+			return nil
+		})
+		if res.K != "ok" {
+			what = fmt.Sprintf("%s store, term %d: %s", kind, term, res)
+		}
+		if what != "" {
+			return what
+		}
+	}
+	return ""
+}
+
 // reconcileTwice: two periods of the gateway's reconcile (remote mode) against the limiter server
 func reconcileTwice(info *clusters.ClusterInfo, o *proxyv1alpha1.UpstreamCluster, rl limiter.RateLimiter) (outcome, *proxyv1alpha1.RateLimitCondition) {
 	var sent *proxyv1alpha1.RateLimitCondition
@@ -892,6 +973,15 @@ consumers:
 		}
 	} else {
 		clusters.VerifC16Stop(rinfo)
+	}
+
+	// 5f. the limiter server over two terms (fail-over to another replica), on both kinds of store
+	if accepted && obj.Name == strings.ToLower(obj.Name) {
+		for _, kind := range []string{"local", "k8s"} {
+			if what := limiterTerms(obj, cs.Cluster, kind); what != "" {
+				return fail("judge", "c16.limiter-terms", "accepted object, limiter server: "+what+": "+cs.Cluster.Summary(), what, nil)
+			}
+		}
 	}
 
 	v.sig = fmt.Sprintf("accepted=%v create=%s controller=%s reconcile=%s", accepted, m.CreateLocal.K, m.Controller.K, m.Reconcile.K)
